@@ -43,6 +43,7 @@ def check(model, tier):
     from ..rules import merge as _merge
 
     _merge.r05_1_simplify_discipline(ctx, rule="R14.12")
+    structure.r_transfer_reapply_engine(ctx, "R14.13")
     structure.r06_1_flags(ctx, rule="R14.8")
     from ..rules import commute as _commute
 
